@@ -151,7 +151,7 @@ func traceT1Nums(args []string) error {
 	}
 	nr := 2000
 	if tier == "thorough" {
-		nr = 100000
+		nr = 1000000
 	}
 	for i := 0; i < nr; i++ {
 		set[int64(int32(rng.Uint32()))] = true
@@ -281,7 +281,7 @@ func traceT1Nums(args []string) error {
 	// ---- (b) fractional deltas: one per glyph, so that the requested delta is the value itself
 	nf := 2000
 	if tier == "thorough" {
-		nf = 20000
+		nf = 200000
 	}
 	var fr []float64
 	for q := 1; q <= 107; q++ {
@@ -344,6 +344,8 @@ func traceT1Nums(args []string) error {
 	maxDev := 0.0
 	paths := []int{1, 10, 100, 1000}
 	if tier == "thorough" {
+		// the library's reader limits strings (and so charstrings) to 65535 bytes: random
+		// paths are cut when their estimated encoding reaches 55000 bytes
 		paths = append(paths, 10000, 10000, 3000, 300)
 	}
 	pf := emptyFont()
@@ -360,8 +362,18 @@ func traceT1Nums(args []string) error {
 		}
 		px, py := cx(), cx()
 		g.MoveTo(px, py)
-		for s := 0; s < n; s++ {
-			switch rng.Intn(7) {
+		est := 0
+		for s := 0; s < n && est < 55000; s++ {
+			k := rng.Intn(7)
+			switch {
+			case k == 0:
+				est += 18
+			case k <= 4:
+				est += 17
+			default:
+				est += 49
+			}
+			switch k {
 			case 0:
 				g.ClosePath()
 				px, py = cx(), cx()
@@ -398,15 +410,28 @@ func traceT1Nums(args []string) error {
 	// staircases: one command form per glyph, every step 10 + 1/300, so that the
 	// rounding errors all have the same sign and add up unless the writer compensates
 	stairs := []string{"rlineto", "hlineto", "vlineto", "rrcurveto", "hvcurveto", "vhcurveto", "mixed"}
-	nst := 60
-	if tier == "thorough" {
-		nst = 2000
+	// steps per staircase: as many as fit into a charstring of 65535 bytes (the property
+	// speaks of paths of up to 10,000 segments: the h and v line forms reach that)
+	nstOf := func(form string) int {
+		if tier != "thorough" {
+			return 60
+		}
+		switch form {
+		case "hlineto", "vlineto":
+			return 10000
+		case "rlineto":
+			return 5000
+		case "mixed":
+			return 3000
+		}
+		return 1500
 	}
 	const st = 10 + 1.0/300
 	for si, form := range stairs {
 		g := &type1.Glyph{WidthX: 100}
 		px, py := 0.0, 0.0
 		g.MoveTo(px, py)
+		nst := nstOf(form)
 		for s := 0; s < nst; s++ {
 			fm := form
 			if fm == "mixed" {
@@ -436,8 +461,8 @@ func traceT1Nums(args []string) error {
 		g.ClosePath()
 		pf.Glyphs[fmt.Sprintf("p%d", len(paths)+si)] = g
 	}
-	for range stairs {
-		paths = append(paths, nst)
+	for _, form := range stairs {
+		paths = append(paths, nstOf(form))
 	}
 	fontgen.SegmentShapes(pf, shapes)
 	buf.Reset()
